@@ -80,22 +80,33 @@ def delegation(db, ctx):
     sp = _py_method(db, "split")
     cl = si = cs = None
     order = []
+    from ..inline import nf as _nf
+    from ..flow import holds_at as _holds_at
     for c, ps in walk(sp.hir):
         if c.get("k") == "MethodCall" and c.get("method") == "clear":
             order.append("clear")
         if is_call(c) and path_ends(callee(c), "MorphemeList::split_into"):
             order.append("split_into")
             a = call_args(c)
-            si = render(a[2]) if len(a) > 2 else None
+            si = _nf(a[2]) if len(a) > 2 else None
         if is_call(c) and path_ends(callee(c), "MorphemeList::copy_slice"):
             order.append("copy_slice")
             a = call_args(c)
-            cs = (render(a[1]), render(a[2]))
+            cs = (_nf(a[1]), _nf(a[2]))
             pcs = path_conditions(c["id"], sp.hir) or []
-            cl = [("" if p else "!") + ("splitted" if mentions(a2, is_call_to("MorphemeList::split_into")) else render(a2)[:60])
-                  for cn, pol in pcs if isinstance(cn, dict) for a2, p in atoms(cn, pol)]
-    ok = order[:3] == ["clear", "split_into", "copy_slice"] and si == "self.index" and cs == ("self.index", "(self.index + 1)") and any("!splitted" == x for x in (cl or []))
-    ctx.ob("PyMorpheme::split", ok, "split: call order %s; split_into index arg `%s`; copy_slice range %s under %s" % (order, si, cs, cl), fn=sp)
+
+            def ev_split(v):
+                def ev(atom):
+                    from ..db import walk_x
+                    a_ = peel(atom)
+                    if a_.get("k") in ("Path", "Match", "MethodCall", "Call") and any(is_call(x) and path_ends(callee(x) or "", "MorphemeList::split_into") for x, _ in walk_x(a_)):
+                        return v
+                    return None
+                return ev
+            # copied over only when nothing was split: unreachable when split_into returned true, reachable when it returned false
+            cl = (_holds_at(pcs, ev_split(True)) is False, _holds_at(pcs, ev_split(False)) is not False)
+    ok = order[:3] == ["clear", "split_into", "copy_slice"] and si == "self.index" and cs == ("self.index", "(1 + self.index)") and cl == (True, True)
+    ctx.ob("PyMorpheme::split", ok, "split: call order %s; split_into index arg `%s`; copy_slice range %s; copy skipped when split_into returned true / done when false: %s" % (order, si, cs, cl), fn=sp)
     ctx.floor(14)
 
 
@@ -343,12 +354,17 @@ def pipeline(db, ctx):
     ans = [f for f in db.impls_of("Analysis::analyze") if "AnalyzeNonSplitted" in f.key]
     if len(asp) != 1 or len(ans) != 1:
         raise AnchorMissing("Analysis::analyze impls")
-    loops = list(_loops(asp[0]))
+    from ..loops import iterations as _its, chain as _lchain
+    av = db.view(asp[0])
+    its_ = list(_its(av.hir))
     ok = False
-    if len(loops) == 1:
-        n, (it, pat, body), ps = loops[0]
-        names, base = _chain(it)
-        ok = names == ["split"] and mentions(body, lambda x: x.get("k") == "MethodCall" and x.get("method") == "analyze") and not any(x.get("k") in ("Break", "Continue", "Ret") for x, _ in walk(body))
+    if len(its_) == 1:
+        itn = its_[0]
+        ch, base = _lchain(db, av, itn["it"])
+        # `map` may only project the (range, text) pair; nothing may drop or reorder sentences
+        ok = [m for m, _ in ch if m != "map"] == ["split"] and itn["kind"] in ("for", "for_each") and \
+            mentions(itn["body"], lambda x: x.get("k") == "MethodCall" and x.get("method") == "analyze") and \
+            not any(x.get("k") in ("Break", "Continue", "Ret") for x, _ in walk(itn["body"]))
     ctx.ob("AnalyzeSplitted::analyze", ok, "every sentence yielded by splitter.split(input) is analysed (no adaptor, no early exit): %s" % ok, fn=asp[0])
     order = []
     for c, _ in walk(ans[0].hir):
